@@ -187,7 +187,38 @@ def table_index(top):
 def name_of(node):
     if isinstance(node, (ast.FunctionDef, ast.AsyncFunctionDef, ast.ClassDef)):
         return node.name
-    return {ast.Lambda: 'lambda', ast.ListComp: 'listcomp', ast.SetComp: 'setcomp', ast.DictComp: 'dictcomp', ast.GeneratorExp: 'genexpr'}[type(node)]
+    # (list / set / dict comprehensions appear as generator expressions in the reference text, see as_generators)
+    return {ast.Lambda: 'lambda', ast.ListComp: 'genexpr', ast.SetComp: 'genexpr', ast.DictComp: 'genexpr', ast.GeneratorExp: 'genexpr'}[type(node)]
+
+
+def as_generators(source, tree):
+    """the same text with every list / set / dict comprehension written as a generator expression (brackets -> parentheses, the
+    colon of a dict comprehension -> `<`): CPython 3.12 inlines those comprehensions and drops their symbol tables, a generator
+    expression has the same scoping rules and keeps its table.  Same length, same lines, same columns.  None if it does not compile."""
+    lines = [bytearray(l.encode('utf-8')) for l in source.split('\n')]
+    try:
+        for n in ast.walk(tree):
+            if isinstance(n, (ast.ListComp, ast.SetComp, ast.DictComp)):
+                lines[n.lineno - 1][n.col_offset] = ord('(')
+                lines[n.end_lineno - 1][n.end_col_offset - 1] = ord(')')
+                if isinstance(n, ast.DictComp):
+                    ln, col = n.key.end_lineno, n.key.end_col_offset
+                    while True:
+                        row = lines[ln - 1]
+                        hit = row.find(b':', col)
+                        hash_ = row.find(b'#', col)
+                        if hit >= 0 and (hash_ < 0 or hit < hash_):
+                            row[hit] = ord('<')
+                            break
+                        ln, col = ln + 1, 0
+                        if ln > n.value.lineno:
+                            return None
+        ref = b'\n'.join(bytes(l) for l in lines).decode('utf-8')
+        if ast.dump(ast.parse(ref)) == '':
+            return None
+        return ref
+    except (SyntaxError, ValueError, IndexError):
+        return None
 
 
 def analyse(source, filename, spec_owners=None, pinned=False):
@@ -199,7 +230,7 @@ def analyse(source, filename, spec_owners=None, pinned=False):
     tree = ast.parse(source)
     w = Walk()
     w.visit(tree)
-    top = symtable.symtable(source, filename, 'exec')
+    top = symtable.symtable(as_generators(source, tree) or source, filename, 'exec')
     tindex = table_index(top)
     used = {}
 
